@@ -210,3 +210,33 @@ theorem zipWith_freshFrom {α β : Type} (fa fb : α → β) (k : Nat) (X : List
   | cons x t ih => simp [freshFrom, ih]
 
 end SkVerif.C16.Lem
+
+namespace SkVerif.C16.Lem
+open SkVerif SkVerif.C16
+
+/-! ### repaired feature union -/
+
+theorem freshFrom_map_snd {β : Type} (k : Nat) (l : List β) : (freshFrom k l).map (·.2) = l := by
+  induction l generalizing k with
+  | nil => rfl
+  | cons a t ih => simp [freshFrom, ih]
+
+theorem zip_map_snd {α β : Type} (l : List α) (r : List β) (h : l.length = r.length) : (l.zip r).map (·.2) = r := by
+  induction l generalizing r with
+  | nil => cases r with
+    | nil => rfl
+    | cons b t => simp at h
+  | cons a t ih => cases r with
+    | nil => simp at h
+    | cons b u => simp at h; simp [ih u h]
+
+theorem unionHstack_ok (kinds : List OutKind) : unionHstack kinds = .ok () := by
+  unfold unionHstack
+  by_cases h : kinds.contains .frame = true
+  · have hm : OutKind.frame ∈ kinds := by simpa using h
+    simp [hm]
+  · simp only [h]
+    simp at h
+    simp [h]
+
+end SkVerif.C16.Lem
